@@ -150,6 +150,18 @@ def runner(rep, tier, seed, replay):
         rep.add_tlc(rb)
         total += len(big)
         cases += rnd.sample(big, min(len(big), 6000))
+    # 7-line scripts (exhaustive from the same writer, one answer per condition): the smallest size at which a break / continue
+    # sits in an if arm that is followed by another arm inside a loop; sampled with preference for exactly those shapes
+    mid = []
+    rm = run_tlc("MCScript", "MCScript_mid", on_replay=mid.append, keep_replays=False, timeout=3000)
+    if rm.violation:
+        raise ToolError("transcription and semantics disagree on a 7-line script:\n" + rm.violation[:2500])
+    rep.add_tlc(rm)
+    total += len(mid)
+    hot = [c for c in mid if any(l["k"] in ("br", "co") for l in c["lines"]) and any(l["k"] in ("el", "ei") for l in c["lines"])]
+    cold = [c for c in mid if c not in hot] if len(mid) < 2000 else mid
+    cases += rnd.sample(hot, min(len(hot), 400 if tier == "quick" else len(hot)))
+    cases += rnd.sample(cold, min(len(cold), 300 if tier == "quick" else 3000))
     sim = big
     log("[C14] %d (script, answers) cases enumerated, %d replayed incl. %d large simulated" % (total, len(cases), len([c for c in sim if len(c['lines']) >= 7])))
     jobs, meta = [], []
